@@ -181,7 +181,7 @@ class Timers(SM.Monitor):
             if st0 == State.ESTABLISHED and st1 == State.DPD_REQ_SENT:
                 self.dpd_probes += 1
                 idle = now - self.last_auth.get(sid, tc)
-                if idle < dpd - 1e-6:
+                if idle < dpd - 1e-6 and not getattr(sa, '_vf_forced', False):
                     sim.fail('dpd-too-early', f'dead-peer detection started {idle:.2f}s after the last authentic message; the '
                                               f'configured interval is {dpd}s')
             if st0 != State.REK_IKE_SA_REQ_SENT and st1 == State.REK_IKE_SA_REQ_SENT:
@@ -189,7 +189,7 @@ class Timers(SM.Monitor):
             if st0 == State.ESTABLISHED and st1 == State.REK_IKE_SA_REQ_SENT:
                 self.rekeys += 1
                 age = now - tc
-                if age < life - 1e-6 and not getattr(sa, '_vf_pushed', False):
+                if age < life - 1e-6 and not getattr(sa, '_vf_pushed', False) and not getattr(sa, '_vf_forced', False):
                     sim.fail('ike-rekey-too-early', f'IKE_SA rekey started at age {age:.2f}s; the configured lifetime is {life}s')
                 if age > life + 5 + 30 + self.max_dt + 1 and ev.kind == 'tick':
                     sim.fail('ike-rekey-after-hard-lifetime', f'IKE_SA rekey started at age {age:.1f}s, after lifetime + jitter + '
@@ -197,7 +197,7 @@ class Timers(SM.Monitor):
             if st0 == State.ESTABLISHED and st1 == State.DEL_IKE_SA_REQ_SENT and ev.kind == 'tick':
                 self.hard_deletes += 1
                 age = now - tc
-                if age < life + 30 - 1e-6:
+                if age < life + 30 - 1e-6 and not getattr(sa, '_vf_forced', False):
                     sim.fail('ike-delete-too-early', f'IKE_SA deletion by lifetime started at age {age:.2f}s; lifetime + 30 s = '
                                                      f'{life + 30}s')
             if ev.kind == 'tick' and st0 == State.ESTABLISHED and st1 == State.ESTABLISHED and in_table:
@@ -245,7 +245,12 @@ def run_case(case):
     if case['cfg'].get('cookie'):
         s.a.ctrl.cookie_threshold = -1
         s.b.ctrl.cookie_threshold = -1
-    s.run(case['ops'])
+    for op in case['ops']:
+        if op[0] in ('rekey_ike', 'del_ike', 'dpd'):
+            # the harness moves the deadline itself: the "not before its time" clauses do not apply to these IKE_SAs
+            for q in s.eps[op[1]].sas:
+                q._vf_forced = True
+        s.apply(op)
     end = case.get('end')
     info = {'end': end}
     if end in ('crash_a', 'crash_b', 'partition'):
@@ -337,9 +342,10 @@ def ops_strategy():
     fine = st.builds(lambda t: ['tick', t], st.sampled_from([0.25, 0.5, 1.0]))
     coarse = st.builds(lambda t: ['tick', t], st.sampled_from([3.0, 7.0, 15.0, 40.0]))
     tf = st.builds(lambda i: ['rewrite', i, 'error', 'TEMPORARY_FAILURE'], st.integers(0, 2))
+    forced = st.builds(lambda k, side: [k, side, 0], st.sampled_from(['rekey_ike', 'dpd', 'dpd', 'del_ike']), st.sampled_from(['a', 'b']))
     auto = st.builds(lambda h, dt, p: ['auto', h, dt, p], st.sampled_from([10, 45, 80]), st.sampled_from([0.5, 1.0, 3.0]),
                      st.just('none'))
-    return st.lists(st.one_of(trig, deliver, deliver, deliver, drop, drop, dup, fine, fine, fine, coarse, auto), min_size=3,
+    return st.lists(st.one_of(trig, forced, deliver, deliver, deliver, drop, drop, dup, fine, fine, fine, coarse, auto), min_size=3,
                     max_size=60)
 
 
@@ -402,6 +408,14 @@ def directed_cases():
                 if end != 'partition' and cut % 4 == 0:
                     for noise in ('clear_init', 'clear_info', 'wrong_flag', 'bad_checksum'):
                         out.append({'cfg': cfgp, 'ops': scen[:cut], 'end': end, 'end_dt': 1.0, 'directed': 'crash+noise', 'noise': noise})
+    # an answered request of one's own, then the peer rekeys the IKE_SA and its DELETE for the old one is delayed or lost
+    est = [['acquire', 'a', 0, 1]] + [['deliver', 0]] * 4
+    for own in (['dpd', 'a', 0], ['expire', 'a', 0, False], ['acquire', 'a', 0, 2]):
+        for lost in (False, True):
+            for dt in (0.5, 1.0, 3.0):
+                ops = est + [own] + [['deliver', 0]] * 4 + [['rekey_ike', 'b', 0], ['deliver', 0], ['deliver', 0]]
+                ops += ([['drop', 0]] if lost else []) + [['tick', dt]] * int(26 / dt)
+                out.append({'cfg': {'dpd': 30, 'lifetime': 3600}, 'ops': ops, 'end': 'drain', 'end_dt': 1.0, 'directed': 'delayed-delete'})
     # lifetimes: idle IKE_SA through rekey and, with every rekey answered TEMPORARY_FAILURE, through the hard deadline
     idle = [['acquire', 'a', 0, 1]] + [['deliver', 0]] * 4
     for dt in (0.5, 1.0, 2.5, 4.0, 4.0):
